@@ -1421,6 +1421,11 @@ def _max_const(I, ci):
 # ------------------------------------------------------------------ closures & fn traits
 @model('<FnOnce>::call_once', '<FnMut>::call_mut', '<Fn>::call')
 def _call_once(I, ci, f, argt):
+    if peel(f) is None:
+        # capture-less closures / fn items are zero-sized: MIR never initialises the local holding them
+        t = ci.selfty_full.lstrip('&').strip()
+        t = t[4:] if t.startswith('mut ') else t
+        f = Closure(t, []) if t.startswith('{closure@') else FnItem(t)
     return I.call_value(f, list(argt.fields))
 
 
